@@ -3,13 +3,18 @@ C03 — Client-to-location mapping is longest-prefix match over declared subnets
 
 Property theorems only; helper lemmas are in `Proofs/Lpm.lean` (laminarity, `Spec.lpm`),
 `Proofs/LpmBytes.lean` (16-byte addresses ↔ 128-bit numbers, masks, byte order),
-`Proofs/LpmMap.lean` (name → map), `Proofs/LpmCdb.lean` (CDB lookup), `Proofs/LpmRdb.lean`
-(range-point table checker).
+`Proofs/LpmMap.lean` (name → map), `Proofs/LpmCdb.lean` (CDB lookup); for the range-point table:
+`Proofs/LpmTable.lean` (vocabulary), `LpmSort.lean` (sort, squash, predecessor search),
+`LpmSweep.lean` (sweep invariant), `LpmRdb.lean` (abstract lookup theorem), `LpmConc.lean`,
+`LpmFamWF.lean`, `LpmFamMono.lean`, `LpmInner.lean` (the concrete family of ranges and W0–W3),
+`LpmStore.lean` (byte keys, `SeekForPrev`), `LpmRearr.lean`, `LpmFinal.lean` (assembly),
+`LpmCheck.lean` (verified table checker).
 -/
 import DnsVerif.Proofs.Lpm
 import DnsVerif.Proofs.LpmMap
 import DnsVerif.Proofs.LpmCdb
-import DnsVerif.Proofs.LpmRdb
+import DnsVerif.Proofs.LpmFinal
+import DnsVerif.Proofs.LpmCheck
 
 namespace DnsVerif.Props.C03
 open DnsVerif DnsVerif.Spec DnsVerif.Loc DnsVerif.Rearr DnsVerif.Codec DnsVerif.Lpm
@@ -179,6 +184,126 @@ theorem getLocationCdb_none_iff {s : Store} {subs : List Subnet} (hrep : CdbRep 
       getLocationCdb s sep c mapID = .ok (none, 0) := by
   intro h
   rw [getLocationCdb_eq_lpm hrep hwf sep c mapID hmap hc16 hc4, lpm_none.2 h]
+
+/-! ### 4. RocksDB backend: the range-point table of `Rearrange()` is longest-prefix match
+
+`SubsWF S` (`Proofs/LpmConc.lean`) is, for the subnets `S` of ONE map: every length ≤ 128, network
+< 2^128 with host bits clear (W0, parser-guaranteed), W1 (no two equal (network, length)),
+W2 (network `::` ⇒ length 0; network `::ffff:0:0` ⇒ length 96), W3 (no block other than `::/0` and
+`0.0.0.0/0` contains `::ffff:0:0/96`), 2-byte locations. W2 and W3 are necessary (§5). -/
+
+/-- **sweep_invariant**: for ANY family of ranges that is laminar with strictly longer prefixes
+inwards at shared start / end points (`RngWF`), on its rank-sorted start/stop events the stack sweep
+never runs out of stack, and the point emitted for each event carries mask length and location of
+the innermost range open just after the event (`IsHead`: open, and inside every open range). The
+stack is at all times the chain of open ranges, most recently opened first (`Inv`). -/
+theorem sweep_invariant {F : List Rng} (hF : RngWF F) (rest : List GEv) (t : Nat) (st : List Rng)
+    (hc : Cut F t rest) (hinv : Inv F t st) :
+    ∃ hs : List Rng, hs.length = rest.length ∧
+      sweep (rest.map GEv.pt) (st.map tag) = some ((rest.zip hs).map outPt) ∧
+      ∀ gh ∈ rest.zip hs, IsHead F (grank gh.1) gh.2 ∧ (gh.1.kind = .start → gh.2 = gh.1.r) :=
+  sweep_ghost hF rest t st hc hinv
+
+/-- **rearrange_lpm** (FULL theorem, table form): for the subnets of one map satisfying W0–W3,
+`Rearrange()` succeeds and the predecessor of `(a, req)` in its output, in database key order
+(address, mask-length byte), carries location and length of `Spec.lpm`'s winner — `(none, 0)` when
+there is none — for every address `a < 2^128` and every prefix length `req < 256` such that `a` is
+masked to `req` (W4; necessary, the lookup of an unmasked address can return a subnet that does not
+contain it). -/
+theorem rearrange_lpm {S : List SubnetDecl} (h : SubsWF S) (hne : S ≠ []) {m : Bytes}
+    (hm : ∀ s ∈ S, s.mapID = m) :
+    ∃ P, rearrange (addAll S) = some P ∧ TableWF P ∧
+      ∀ a req, a < 2 ^ 128 → req < 256 → a % 2 ^ (128 - req) = 0 →
+        lookupRes P a req = lpmRes S m a req :=
+  rearrange_table h hne hm
+
+/-- **rangepoint_keys_distinct**: after the squash no two range points have the same database key,
+so every range-point key has exactly one value -/
+theorem rangepoint_keys_distinct {S : List SubnetDecl} (h : SubsWF S) (hne : S ≠ []) {P : List Point}
+    (hP : rearrange (addAll S) = some P) : P.Pairwise fun u v => pkey u ≠ pkey v := by
+  have hwf' : SubsWF (S.map fun s => { s with mapID := [] }) := by
+    constructor
+    · intro s hs; obtain ⟨t, ht, rfl⟩ := List.mem_map.1 hs; exact h.ones_le t ht
+    · intro s hs; obtain ⟨t, ht, rfl⟩ := List.mem_map.1 hs; exact h.net_lt t ht
+    · intro s hs; obtain ⟨t, ht, rfl⟩ := List.mem_map.1 hs; exact h.aligned t ht
+    · rw [List.pairwise_map]; exact h.w1
+    · intro s hs; obtain ⟨t, ht, rfl⟩ := List.mem_map.1 hs; exact h.w2 t ht
+    · intro s hs; obtain ⟨t, ht, rfl⟩ := List.mem_map.1 hs; exact h.w3 t ht
+    · intro s hs; obtain ⟨t, ht, rfl⟩ := List.mem_map.1 hs; exact h.loc_len t ht
+  obtain ⟨P', hP', hwf, _⟩ := rearrange_table hwf' (m := []) (by simpa using hne)
+    (by intro s hs; obtain ⟨t, _, rfl⟩ := List.mem_map.1 hs; rfl)
+  have hadd : addAll (S.map fun s => { s with mapID := [] }) = addAll S := by
+    unfold addAll; rw [List.foldl_map]
+  rw [hadd, hP] at hP'
+  cases hP'
+  exact hwf.keys_distinct
+
+/-- **rearrange_lpm** (store form): on EVERY store whose keys with prefix `marker ++ map` are exactly
+the range points of the map (`RdbRep`), `GetLocationByMap` of the RocksDB driver (`SeekForPrev` on
+`marker ++ map ++ ip ++ [masklen]`) returns `Spec.lpm`'s answer -/
+theorem rearrange_lpm_store {S : List SubnetDecl} (h : SubsWF S) (hne : S ≠ []) {m : Bytes}
+    (hm2 : m.length = 2) (hm : ∀ s ∈ S, s.mapID = m) :
+    ∃ P, rearrange (addAll S) = some P ∧
+      ∀ (s : Store), RdbRep s m P → ∀ (c : ClientNet), (maskedClientIP c).length = 16 →
+        ipToNat (maskedClientIP c) % 2 ^ (128 - reqOf c) = 0 →
+        getLocationRdb s c m = .ok (lpmRes S m (ipToNat (maskedClientIP c)) (reqOf c)) :=
+  Lpm.rearrange_lpm_store h hne hm2 hm
+
+/-- … in particular on the database `SubnetRanger.MarshalMap` writes for the subnets of one map:
+the records exist (no sweep failure) and the lookup is `Spec.lpm` -/
+theorem rearrange_lpm_db {subs : List Subnet} {m : Bytes} (hm2 : m.length = 2) (hne : subs ≠ [])
+    (hm : ∀ x ∈ subs, x.lmap = m) (h : SubsWF (subs.map declOf)) :
+    ∃ kvs, rangePointKVs subs = some kvs ∧
+      ∀ (c : ClientNet), (maskedClientIP c).length = 16 →
+        ipToNat (maskedClientIP c) % 2 ^ (128 - reqOf c) = 0 →
+        getLocationRdb (Store.ofKVs kvs) c m =
+          .ok (lpmRes (subs.map declOf) m (ipToNat (maskedClientIP c)) (reqOf c)) :=
+  rearrange_lpm_single hm2 hne hm h
+
+/-- W4 is met by the regular clients: a valid mask of the address's own size (what
+`ResolverLocation` and a well-formed ECS option produce) -/
+theorem client_masked (c : ClientNet) (h16 : c.ip16.length = 16) (hv : c.maskValid = true)
+    (hreg : (c.maskBits = 32 ∧ isIPv4 c = true ∧ c.maskOnes ≤ 32) ∨
+            (c.maskBits = 128 ∧ isIPv4 c = false ∧ c.maskOnes ≤ 128)) :
+    (maskedClientIP c).length = 16 ∧ ipToNat (maskedClientIP c) % 2 ^ (128 - reqOf c) = 0 :=
+  client_aligned c h16 hv hreg
+
+/-- W0 from the parser's guarantee (16-byte network address with host bits cleared) -/
+theorem w0_of_masked {ip : List UInt8} {ones : Nat} (h16 : ip.length = 16) (hle : ones ≤ 128)
+    (hm : Net.maskIP ip ones = ip) : ipToNat ip % 2 ^ (128 - ones) = 0 :=
+  aligned_of_masked h16 hle hm
+
+/-- the verified table checker (kept as the oracle for tables produced by the REAL `Rearrange()`):
+`checkTable` evaluates predecessor lookup and `lpm` at finitely many breakpoints; passing implies
+agreement on all `2^128 × 256` masked inputs -/
+theorem checkTable_sound (S : List SubnetDecl) (mapID : Bytes) (P : List Point)
+    (h : checkTable S mapID P = true) :
+    ∀ a req, a < 2 ^ 128 → req < 256 → a % 2 ^ (128 - req) = 0 →
+      lookupRes P a req = lpmRes S mapID a req :=
+  Lpm.checkTable_sound S mapID P h
+
+/-- non-vacuity: `10.0.0.0/8 ⊃ 10.1.0.0/16`, `::/0`, `2001:db8::/32` satisfy W0–W3 … -/
+def exSubnets : List Subnet :=
+  [{ lo := some [1, 1], ip := natToIP 0xffff0a000000, ones := 104, lmap := [0, 7] },
+   { lo := some [2, 2], ip := natToIP 0xffff0a010000, ones := 112, lmap := [0, 7] },
+   { lo := some [3, 3], ip := natToIP 0, ones := 0, lmap := [0, 7] },
+   { lo := some [4, 4], ip := natToIP (0x20010db8 * 2 ^ 96), ones := 32, lmap := [0, 7] }]
+
+theorem exSubnets_wf : SubsWF (exSubnets.map declOf) := by
+  constructor <;> decide
+
+/-- … so the theorem applies to them; and the instance `10.1.2.0/24 ↦ [2,2]/112` evaluates -/
+example : ∃ kvs, rangePointKVs exSubnets = some kvs ∧
+    ∀ (c : ClientNet), (maskedClientIP c).length = 16 →
+      ipToNat (maskedClientIP c) % 2 ^ (128 - reqOf c) = 0 →
+      getLocationRdb (Store.ofKVs kvs) c [0, 7] =
+        .ok (lpmRes (exSubnets.map declOf) [0, 7] (ipToNat (maskedClientIP c)) (reqOf c)) :=
+  rearrange_lpm_db rfl (by decide) (by decide) exSubnets_wf
+
+example : lpmRes (exSubnets.map declOf) [0, 7] 0xffff0a010200 120 = (some [2, 2], 112) ∧
+    lpmRes (exSubnets.map declOf) [0, 7] 0xffff0b000000 104 = (none, 0) ∧
+    lpmRes (exSubnets.map declOf) [0, 7] (0x20010db8 * 2 ^ 96 + 2 ^ 64) 64 = (some [4, 4], 32) ∧
+    lpmRes (exSubnets.map declOf) [0, 7] (2 ^ 127) 1 = (some [3, 3], 0) := by decide
 
 /-! ### 5. the well-formedness conditions of the range-point table are necessary -/
 
